@@ -507,6 +507,7 @@ struct Task {
 fn main() {
     // a stack overflow / abort in the code under test must become a verdict, not a dead check
     vcore::supervise("C12");
+    vcore::install_log_evaluation(); // logging is part of the environment: log arguments are evaluated as under a real subscriber
     let ctx = Ctx::from_args("C12", "model_checking");
     let thorough = !ctx.quick();
     // one work unit is a few hundred real exchanges; leave room for a heavily loaded machine
